@@ -5,7 +5,6 @@ import (
 	"io"
 	"sort"
 	"strings"
-	"sync/atomic"
 	"time"
 
 	"google.golang.org/grpc/codes"
@@ -246,25 +245,27 @@ func (t *inclTable) fn() resource.FilterFunc {
 // simClock is the injected resource.Clock: fake time + offset, strictly increasing by 1ns per read unless a jump fault
 // is injected. Reads are recorded so that oracles can bound change times by call windows.
 type simClock struct {
-	offset atomic.Int64
-	reads  atomic.Int64
-	last   atomic.Int64
+	// plain words read and written through the kernel's uninstrumented helpers: a clock that several callers read must not
+	// look like synchronisation between them to the race detector (see kernel.go)
+	offset int64
+	reads  int64
+	last   int64
 }
 
 func (c *simClock) Now() time.Time {
 	simYield("clock.now") // the injected clock is a seam the code already has: a task may be preempted at every reading
-	c.reads.Add(1)
-	off := c.offset.Add(1)
+	addi64(&c.reads, 1)
+	off := addi64(&c.offset, 1)
 	t := time.Now().Add(time.Duration(off))
-	c.last.Store(t.UnixNano())
+	addi64(&c.last, t.UnixNano()-ldi64(&c.last))
 	return t
 }
 
-func (c *simClock) Jump(d time.Duration) { c.offset.Add(int64(d)) }
+func (c *simClock) Jump(d time.Duration) { addi64(&c.offset, int64(d)) }
 
 // Peek returns a reading without ticking (harness use only).
 func (c *simClock) Peek() time.Time {
-	return time.Now().Add(time.Duration(c.offset.Load()))
+	return time.Now().Add(time.Duration(ldi64(&c.offset)))
 }
 
 // simRNG is the injected id generator source.
